@@ -7,6 +7,8 @@ package pkga
 
 import (
 	"context"
+	"fmt"
+	"sync"
 
 	"github.com/safing/portbase/log"
 )
@@ -105,5 +107,34 @@ func handle(tr *log.ContextTracer, sevs []int, fs []bool, texts []string) {
 			tr.Critical(texts[i])
 		}
 	}
+	tr.Submit()
+}
+
+// Fanout: a handler shares its tracer with k helper goroutines that log n lines each through it at the same time
+// (texts "g<helper>-<line>;"), then logs the main line and submits.
+func Fanout(k, n int) {
+	_, tr := log.AddTracer(context.Background())
+	var wg sync.WaitGroup
+	for g := 0; g < k; g++ {
+		wg.Add(1)
+		go func(g int) {
+			defer wg.Done()
+			for j := 0; j < n; j++ {
+				text := fmt.Sprintf("g%d-%d;", g, j)
+				switch (g + j) % 4 {
+				case 0:
+					tr.Trace(text)
+				case 1:
+					tr.Debugf("%s", text)
+				case 2:
+					tr.Info(text)
+				default:
+					tr.Warningf("%s", text)
+				}
+			}
+		}(g)
+	}
+	wg.Wait()
+	tr.Info("fanout main line")
 	tr.Submit()
 }
